@@ -72,6 +72,7 @@ type world struct {
 
 	capAsserted bool // the per-host block cap is asserted in this run
 	contention  bool // contention swarm profile (see newWorld)
+	fifo        bool // reuse-order swarm profile (see newWorld)
 }
 
 const forever = int(^uint(0) >> 1)
@@ -298,9 +299,20 @@ func newWorld(r *core.R) *world {
 	}
 	w.contention = src.Chance(cp, "contention_profile")
 	r.Cfg("contention_profile", w.contention)
+	// reuse-order profile: one pool of one or two larger blocks, no or short cooldown, many releases and
+	// specific-address assignments between auto-assignments - the free-list order C21 is about
+	fp := 100
+	if r.Armed("C21") {
+		fp = 450
+	}
+	w.fifo = !w.contention && src.Chance(fp, "fifo_profile")
+	r.Cfg("fifo_profile", w.fifo)
 	nh := src.Range(2, 4, "hosts")
 	if w.contention && nh < 3 {
 		nh = 3
+	}
+	if w.fifo {
+		nh = 2
 	}
 	for i := 0; i < nh; i++ {
 		h := fmt.Sprintf("h%d", i)
@@ -325,7 +337,7 @@ func newWorld(r *core.R) *world {
 		w.strict, w.autoAlloc = true, false
 	}
 	w.cooldown = []int{0, 0, 5, 30, 120}[src.Intn(5, "cfg_cooldown")]
-	if w.contention && w.cooldown > 5 {
+	if (w.contention || w.fifo) && w.cooldown > 5 {
 		w.cooldown = 0 // addresses in cooldown keep a block non-empty; reclaim needs empty blocks
 	}
 	w.st.Put(&model.KVPair{Key: model.IPAMConfigKey{}, Value: &model.IPAMConfig{
@@ -339,7 +351,7 @@ func newWorld(r *core.R) *world {
 
 	// pools: small, so that contention, exhaustion, borrowing and reclaim happen
 	np := src.Range(1, 3, "pools")
-	if w.contention {
+	if w.contention || w.fifo {
 		np = 1
 	}
 	bases := []string{"10.0.0.0", "10.0.1.0", "10.0.2.0"}
@@ -350,9 +362,17 @@ func newWorld(r *core.R) *world {
 			bs = src.Range(30, 31, "pool_blocksize_c")
 			plen = bs - 1 // two blocks for three or more hosts
 		}
+		if w.fifo {
+			bs = src.Range(28, 29, "pool_blocksize_f")
+			plen = bs - src.Intn(2, "pool_blocks_log2_f")
+		}
 		pv := &poolVersion{name: fmt.Sprintf("pool%d", i), cidr: mustCIDR(fmt.Sprintf("%s/%d", bases[i], plen)), blockSize: bs, from: 0, to: forever,
 			uses: []v3.IPPoolAllowedUse{v3.IPPoolAllowedUseWorkload, v3.IPPoolAllowedUseTunnel}}
-		switch src.Weighted([]int{6, 2, 2, 1}, "pool_kind") {
+		kinds := []int{6, 2, 2, 1}
+		if w.fifo {
+			kinds = []int{1, 0, 0, 0}
+		}
+		switch src.Weighted(kinds, "pool_kind") {
 		case 1:
 			pv.nodeSel = "zone == 'a'"
 		case 2:
@@ -360,10 +380,10 @@ func newWorld(r *core.R) *world {
 		case 3:
 			pv.manual = true
 		}
-		if src.Chance(150, "pool_nssel") {
+		if !w.fifo && src.Chance(150, "pool_nssel") {
 			pv.nsSel = "team == 'x'"
 		}
-		if src.Chance(100, "pool_disabled") {
+		if !w.fifo && src.Chance(100, "pool_disabled") {
 			pv.disabled = true
 		}
 		w.pools = append(w.pools, pv)
